@@ -125,17 +125,50 @@ def check_neutral(ctx, rng):
         return ("neutral-shift", f"{opt}: total charge {qa} -> {qb}, {neutralised} terminus neutralised", text)
     # only terminal residues change
     for k, (x, y) in enumerate(zip(ra.biomolecule.residues, rb.biomolecule.residues)):
-        terminal = bool(getattr(y, "is_n_term", 0)) if opt == "--neutraln" else bool(getattr(y, "is_c_term", 0))
+        # "change only chain-terminal residues": a residue at either end of a chain is terminal
+        terminal = bool(getattr(y, "is_n_term", 0)) or bool(getattr(y, "is_c_term", 0))
         if not terminal and [(a.name, a.ffcharge, a.radius, a.x, a.y, a.z) for a in x.atoms] != [(a.name, a.ffcharge, a.radius, a.x, a.y, a.z) for a in y.atoms]:
             return ("neutral-nonterminal", f"{opt}: non-terminal residue {y} changes", text)
     return None
+
+
+def check_propka_ffout(ctx, rng):
+    """the output naming scheme must not pick protonation states: PROPKA-driven runs at a pH where
+    groups titrate, with and without --ffout / the other formatting options"""
+    must = rng.choice(["LYS", "TYR", "CYS", "ASP", "GLU", "HIS", "ARG"])
+    _f, res = G.window(rng, rng.choice([3, 4, 6]), must_have=must)
+    G.set_chain(res, "A", 1)
+    text = G.to_pdb([res])
+    ff = rng.choice(c01.FFS)
+    ph = rng.choice([1.0, 2.5, 11.0, 13.5])
+    base = [f"--ff={ff}", "--titration-state-method=propka", f"--with-ph={ph}"]
+    opt = rng.choice(["--ffout", "--ffout", "--ffout", "--whitespace", "--keep-chain", "--include-header"])
+    if opt == "--ffout":
+        other = rng.choice([f for f in c01.FFS if f != ff])
+        a_opts, b_opts = base, base + [f"--ffout={other}"]
+        ra, rb = G.run_pipeline(text, a_opts), G.run_pipeline(text, b_opts)
+        ctx.evaluations += 2
+        if ra.status != rb.status:
+            return ("status", f"--ffout={other} with PROPKA at pH {ph}: {ra.status} without it, {rb.status} with it", text, ff, base, f"--ffout={other}")
+        if ra.status != "ok":
+            return None
+        A, B = atom_records(ra.pqr, False), atom_records(rb.pqr, False)
+        if len(A) != len(B):
+            return ("atom-count", f"--ffout={other} with PROPKA at pH {ph} ({ff}): {len(A)} atom lines without it, {len(B)} with it", text, ff, base, f"--ffout={other}")
+        for i, (x, y) in enumerate(zip(A, B)):
+            for col, k in (("x", 5), ("y", 6), ("z", 7), ("charge", 8), ("radius", 9)):
+                if x[k] != y[k]:
+                    return (col, f"--ffout={other} with PROPKA at pH {ph} ({ff}): atom line {i} {col} is {x[k]!r} without it and {y[k]!r} with it", text, ff, base, f"--ffout={other}")
+        return None
+    pr = compare(ctx, text, ff, base, opt)
+    return None if pr is None else (pr[0], pr[1], text, ff, base, opt)
 
 
 def run(ctx: Ctx):
     rng = ctx.rng
     ctx.extra["rule"] = (
         "peptide windows (every residue type forced in turn, pre-named states, two chains, waters) x force field x random base option subsets; each formatting option toggled on its own against the same base; "
-        "--drop-water against hand-deleted waters; --neutraln/--neutralc against the plain PARSE run; a case is (option toggled, force field, base option set); distinct counts distinct tuples"
+        "PROPKA-driven runs at pH 1/2.5/11/13.5 with and without --ffout=<another force field> and the other formatting options; --drop-water against hand-deleted waters; --neutraln/--neutralc against the plain PARSE run; a case is (option toggled, force field, base option set); distinct counts distinct tuples"
     )
     seen = set()
     n = ctx.scale(14, 600)
@@ -162,6 +195,14 @@ def run(ctx: Ctx):
             if tuple(sig.items()) not in seen:
                 seen.add(tuple(sig.items()))
                 ctx.violate(sig, pr[1], {"pdb": pr[2], "ff": pr[3], "base": [], "option": "--drop-water"})
+    for ci in range(ctx.scale(14, 500)):
+        pr = check_propka_ffout(ctx, rng)
+        ctx.count("propka-metamorphic", "holds" if pr is None else pr[0])
+        if pr is not None:
+            sig = {"option": pr[5].split("=")[0], "column": pr[0], "with": "propka"}
+            if tuple(sig.items()) not in seen:
+                seen.add(tuple(sig.items()))
+                ctx.violate(sig, pr[1], {"pdb": pr[2], "ff": pr[3], "base": pr[4], "option": pr[5]})
     for ci in range(ctx.scale(16, 600)):
         pr = check_neutral(ctx, rng)
         ctx.count("oracle", "holds" if pr is None else pr[0])
